@@ -112,10 +112,11 @@ func init() {
 			g14VisitContinues(c.Repo, c.Rep)
 			g16Load(c.Repo, c.Rep)
 			g12HasUndefined(c)
+			g17StaleArgTypes(c.Repo, c.Rep)
 			c.Rep.floor("G4", 10)
 			c.Rep.floor("G10", 9)
 		},
-		explanation: "Decides the mechanisms C07's anchors name, each a necessary condition: the derived file is written with a truncating os.Create on a path that comes only from (*pkg).Filename(), the same constant is what discovery excludes (G4); every successful return of generatePackage has passed through Print (HasContent) or Delete (otherwise) (G10 must-pass-through on the CFG); the loader tolerates type errors and an unparsable derived file; files named derivedFilename are excluded from call discovery, names resolved into it are re-queued and never reserved; no user file is skipped when listing package files (G10). Not decided: byte identity across histories; in particular argument types of nested derive calls come from the stale file's signatures (documented genuine defect, out of static reach). Added: reserved names never come from the whole type-checked package (G14); the finder continues into a call's arguments (G14); HasUndefined examines whole types (G12); loads include test files, tolerate errors, nobody reads a package's Errors list (G16).",
+		explanation: "Decides the mechanisms C07's anchors name, each a necessary condition: the derived file is written with a truncating os.Create on a path that comes only from (*pkg).Filename(), the same constant is what discovery excludes (G4); every successful return of generatePackage has passed through Print (HasContent) or Delete (otherwise) (G10 must-pass-through on the CFG); the loader tolerates type errors and an unparsable derived file; files named derivedFilename are excluded from call discovery, names resolved into it are re-queued and never reserved; no user file is skipped when listing package files (G10). Not decided: byte identity across histories; (G17) whatever decides whether a call's argument types are known yet must consult the derived-file classification — on the current tree nothing does, which is the known stale-signature defect (deriveSort(deriveKeys(m)) after retyping m), reported as a known finding. Added: reserved names never come from the whole type-checked package (G14); the finder continues into a call's arguments (G14); HasUndefined examines whole types (G12); loads include test files, tolerate errors, nobody reads a package's Errors list (G16).",
 		assumptions: commonAssumptions,
 		technique:   "custom static analysis: who-may-call table, path provenance, go/cfg must-pass-through and exclusion (reachability/dominance) rules",
 	}
